@@ -65,6 +65,7 @@ class Sem:
         self.w = world
         self.prog = world.prog
         self._label_memo = {}
+        world.specialiser = self.arg_specialisation
 
     # ------------------------------------------------------------------ storage cells
     def cell_of(self, e):
@@ -570,6 +571,25 @@ class Sem:
             if k in IDENT_ARG and len(e.args) > IDENT_ARG[k]:
                 return self.aval(e.args[IDENT_ARG[k]], env, depth + 1)
         return None
+
+    def arg_specialisation(self, body, args):
+        """infeasible edges of `body` when called with `args`: only constant enum / integer arguments count"""
+        env = {}
+        for i, a in enumerate(args, 1):
+            if a is None or i > body.arg_count:
+                continue
+            x = self.w.ident(a, expand_ws=False)
+            if x.op == "adt" and x.info[1] and not x.args:
+                v = self.aval(x, {})
+            elif x.op == "const" and x.info[0] == "scalar":
+                v = self.aval(x, {})
+            else:
+                v = None
+            if v is not None:
+                env[E("param", (), (body.path, i, body.name_of(i), body.local_tys[i]))] = v
+        if not env:
+            return frozenset()
+        return frozenset(self.feasible_removed(self.w.be(body), env))
 
     def feasible_removed(self, be, env):
         """edges (src,dst) infeasible under env"""
